@@ -149,6 +149,9 @@ func (v *Verifier) arityFacts(cfg SweepConfig) map[*ssa.Function]string {
 				}
 				var target *ssa.Function
 				last := args[len(args)-1]
+				if ct, ok := last.(*ssa.ChangeType); ok {
+					last = ct.X // a named function converted to the XFunc type
+				}
 				switch x := last.(type) {
 				case *ssa.MakeClosure:
 					target = x.Fn.(*ssa.Function)
